@@ -28,7 +28,12 @@ fn gen_elem(src: &mut Src, depth: usize, floats: bool) -> J {
         0 => {
             if src.chance(1, 10) {
                 // distinct integers that collapse when converted to f64
-                J::Int(*src.pick(&[(1i64 << 53) + 1, 1i64 << 53, (1i64 << 53) + 2, i64::MAX - 1, i64::MAX, -(1i64 << 53) - 1, -(1i64 << 53)]))
+                if src.chance(1, 3) {
+                    // ... and above i64::MAX, where the trait shows an integer only as a double
+                    J::UInt(*src.pick(&[u64::MAX, u64::MAX - 1, 1u64 << 63, (1u64 << 63) + 1]))
+                } else {
+                    J::Int(*src.pick(&[(1i64 << 53) + 1, 1i64 << 53, (1i64 << 53) + 2, i64::MAX - 1, i64::MAX, -(1i64 << 53) - 1, -(1i64 << 53)]))
+                }
             } else {
                 J::Int(src.range(0, 4))
             }
